@@ -23,6 +23,6 @@ PROP = {
 
 TEXT = {
     "technique": "property-based testing: grammar-generated format strings with typed variadic arguments, differential against host snprintf (output, return value, callback count), exhaustive flag/width/precision/length/conversion/value grid, exact %s blocks under ASan, per-case watchdog for termination, libFuzzer in thorough",
-    "level": "Generated-input exploration: formats built from the ISO-defined directive grammar (flags - + space # 0, literal and * widths/precisions incl. negative * values, hh h l ll j z t, conversions d i u o x X c s p %, literal text) with boundary-biased arguments of the exact promoted type are run through __printf (callback capture) and the vsprintf shim and compared byte for byte with glibc snprintf; %p is judged by shape/parse-back/width. A 800k-point grid is enumerated completely. Hangs are violations (watchdog).  A separate target uses one directive with width and/or precision of 250..262, 41..600 or 1000..1100 and %s arguments of up to 300 characters. Nothing is established beyond the explored inputs.",
+    "level": "Generated-input exploration: formats built from the ISO-defined directive grammar (flags - + space # 0, literal and * widths/precisions incl. negative * values, hh h l ll j z t, conversions d i u o x X c s p %, literal text) with boundary-biased arguments of the exact promoted type are run through __printf (callback capture) and the vsprintf shim and compared byte for byte with glibc snprintf; %p is judged by shape/parse-back/width. A 800k-point grid is enumerated completely. Hangs are violations (watchdog).  A separate target uses one directive with width and/or precision of 250..262, 41..600 or 1000..1100 and %s arguments of up to 300 characters. Nothing is established beyond the explored inputs. The shim's snprintf is called with a buffer of exactly the ISO length + 1.",
     "note": "Trusted: glibc snprintf as the ISO C reference; combinations ISO leaves undefined (e.g. # with d, 0 with s, precision with c) are not generated; at most 4 variadic arguments per call; clang ASan/UBSan.",
 }
